@@ -101,7 +101,8 @@ def live_suite(ctx, vh, name, args, min_upgrades):
                       no_input=True)
 
 
-ACT = {"s": "ASend", "g": "AGet", "d": "ADial", "p": "APing", "u": "AUpg", "m": "AWsMsg", "o": "APost"}
+ACT = {"s": "ASend", "g": "AGet", "d": "ADial", "p": "APing", "u": "AUpg", "m": "AWsMsg", "o": "APost",
+       "h": "AGetHold", "r": "ARelease"}
 
 
 def gen_schedules(maxlen):
@@ -138,9 +139,24 @@ def forced_term(r):
     return gpair(glist(ACT[a] for a in r["sched"]), obs)
 
 
-def forced_suite(ctx, vh):
+def hold_schedules(rnd, n):
+    """a GET is held at pollQueue's yield point (after its empty first get(), before its wait) while messages
+    are queued and the transports are swapped, then released: the poll that was routed to the old transport
+    before the swap reads the old queue after it"""
+    res = {"hsdpur", "hsdur", "hssdpurg", "hdpsur", "hdspusrm", "hsdpusr", "hdpur", "hsr", "hdpsr", "hsdpsurs"}
+    while len(res) < n:
+        pre = "".join(rnd.choice("sso") for _ in range(rnd.randint(0, 3)))
+        mid = "".join(rnd.choice("sspo") for _ in range(rnd.randint(0, 3)))
+        post = "".join(rnd.choice("ssmg") for _ in range(rnd.randint(0, 3)))
+        res.add("h" + pre + "d" + mid + "u" + rnd.choice(["", "s", "ss", "m"]) + "r" + post)
+    return sorted(res)
+
+
+def forced_suite(ctx, vh, hold=False):
     import os
     import random
+    name = "forcedhold" if hold else "forced"
+    par = 1 if hold else 32
     allsched = [s for s in gen_schedules(6 if ctx.quick else 7) if "d" in s]
     rnd = random.Random(ctx.seed)
     core = [s for s in allsched if "u" in s and "s" in s]
@@ -152,21 +168,23 @@ def forced_suite(ctx, vh):
         post = "".join(rnd.choice("ssmgo") for _ in range(rnd.randint(1, 4)))
         pick.append(pre + "d" + mid + "p" + rnd.choice(["", "s", "g", "sg", "o"]) + "u" + post)
     pick = sorted(set(pick))
+    if hold:
+        pick = hold_schedules(rnd, 24 if ctx.quick else 150)
 
     # what the model expects to come out at every step: the rig waits (bounded) for that much, so a slow
     # machine does not change the interleaving; what is then recorded is compared in full
     import re
-    vals = ctx.coq_eval_values("up_fexpect", HDR, ["fexpect %s" % glist(ACT[a] for a in s) for s in pick], shard=120)
+    vals = ctx.coq_eval_values("up_fexpect_" + name, HDR, ["fexpect %s" % glist(ACT[a] for a in s) for s in pick], shard=120)
     expect = {}
     for s_, v in zip(pick, vals):
         nums = [int(x) for x in re.findall(r"\d+", v)]
         expect[s_] = ";".join(",".join(str(x) for x in nums[i:i + 4]) for i in range(0, len(nums), 4))
 
     def run_rig(scheds, settle, tag):
-        path = os.path.join(ctx.work, "sched-%s.txt" % tag)
+        path = os.path.join(ctx.work, "sched-%s-%s.txt" % (name, tag))
         with open(path, "w") as f:
             f.write("\n".join("%s %s" % (s_, expect[s_]) for s_ in scheds) + "\n")
-        return ctx.vh_jsonl(vh, "upgrade", ["-mode", "forced", "-sched", path, "-settle", settle, "-par", 32], timeout=900)
+        return ctx.vh_jsonl(vh, "upgrade", ["-mode", "forced", "-sched", path, "-settle", settle, "-par", par], timeout=900)
 
     rows = run_rig(pick, 12, "a")
     if rows is None:
@@ -176,11 +194,11 @@ def forced_suite(ctx, vh):
     ctx.indeterminate += len(env)
     if len(env) * 5 > len(pick):
         ctx.violation("forced-schedule rig: %d of %d schedules failed for environmental reasons %s" % (len(env), len(pick), [r["env"] for r in env[:3]]),
-                      {"kind": "correspondence-broken", "suite": "upgrade/forced", "theorems": THEOREMS}, no_input=True)
+                      {"kind": "correspondence-broken", "suite": "upgrade/" + name, "theorems": THEOREMS}, no_input=True)
         return
     terms = [forced_term(r) for r in rows]
-    bad_agree = ctx.coq_eval_cases("up_fagree", HDR, terms, "agree_forced", shard=60)
-    bad_oracle = ctx.coq_eval_cases("up_foracle", HDR, terms, "oracle_forced", shard=60)
+    bad_agree = ctx.coq_eval_cases("up_fagree_" + name, HDR, terms, "agree_forced", shard=60)
+    bad_oracle = ctx.coq_eval_cases("up_foracle_" + name, HDR, terms, "oracle_forced", shard=60)
     # a step that had not settled (loaded machine) shows up as a disagreement: re-run those schedules twice
     # with much longer quiet times; only an observation that reproduces identically counts
     suspects = sorted(set(bad_agree) | set(bad_oracle))
@@ -192,25 +210,25 @@ def forced_suite(ctx, vh):
         ctx.indeterminate += len(suspects) - len(stable)
         if stable:
             t2 = [forced_term(r) for r in stable]
-            confirmed_agree = [stable[i] for i in ctx.coq_eval_cases("up_fagree2", HDR, t2, "agree_forced", shard=60)]
-            confirmed_oracle = [stable[i] for i in ctx.coq_eval_cases("up_foracle2", HDR, t2, "oracle_forced", shard=60)]
+            confirmed_agree = [stable[i] for i in ctx.coq_eval_cases("up_fagree2_" + name, HDR, t2, "agree_forced", shard=60)]
+            confirmed_oracle = [stable[i] for i in ctx.coq_eval_cases("up_foracle2_" + name, HDR, t2, "oracle_forced", shard=60)]
     for r in rows:
-        ctx.count(1, nontrivial_key=("fs", r["sched"]) if ("u" in r["sched"] and "s" in r["sched"]) else None,
-                  dist="upgrade:forced:" + ("swap-with-traffic" if ("u" in r["sched"] and "s" in r["sched"]) else "other"))
+        ctx.count(1, nontrivial_key=("fs", name, r["sched"]) if ("u" in r["sched"] and "s" in r["sched"]) else None,
+                  dist="upgrade:" + name + ":" + ("swap-with-traffic" if ("u" in r["sched"] and "s" in r["sched"]) else "other"))
     if rows:
-        ctx.sample({"suite": "upgrade/forced", "case": rows[len(rows) // 3]})
-    ctx.obligation("correspondence:upgrade/forced", "correspondence", not confirmed_agree,
+        ctx.sample({"suite": "upgrade/" + name, "case": rows[len(rows) // 3]})
+    ctx.obligation("correspondence:upgrade/" + name, "correspondence", not confirmed_agree,
                    "%d raw-peer schedules, %d disagree with the model step by step (%d unsettled first runs re-run)" % (
                        len(rows), len(confirmed_agree), len(suspects)))
-    ctx.obligation("oracle:upgrade/forced", "oracle", not confirmed_oracle, "%d schedules, %d fail" % (len(rows), len(confirmed_oracle)))
+    ctx.obligation("oracle:upgrade/" + name, "oracle", not confirmed_oracle, "%d schedules, %d fail" % (len(rows), len(confirmed_oracle)))
     for r in confirmed_oracle[:3]:
         ctx.violation("server output across the swap duplicates, invents or loses a message: schedule %s (s=server send, g=GET poll, d=dial ws, "
-                      "p=probe ping, u=UPGRADE, m=ws message, o=POST) observations %s" % (r["sched"], r["obs"]),
+                      "p=probe ping, u=UPGRADE, m=ws message, o=POST, h=GET held before its wait, r=release it) observations %s" % (r["sched"], r["obs"]),
                       {"kind": "failing-input", "engine": "upgrade", "mode": "forced", "case": r})
     if confirmed_agree and not confirmed_oracle:
         r = confirmed_agree[0]
         ctx.violation("the server no longer does, step by step, what the model Eio/Upgrade.v does on raw-peer schedule %s: %s" % (r["sched"], r["obs"]),
-                      {"kind": "correspondence-broken", "suite": "upgrade/forced", "theorems": THEOREMS, "case": r}, no_input=True)
+                      {"kind": "correspondence-broken", "suite": "upgrade/" + name, "theorems": THEOREMS, "case": r}, no_input=True)
 
 
 def run(ctx):
@@ -230,4 +248,5 @@ def run(ctx):
     n_live = 130 if ctx.quick else 900
     live_suite(ctx, vh, "live", ["-mode", "live", "-n", n_live, "-par", 24, "-seed", ctx.seed], min_upgrades=100)
     forced_suite(ctx, vh)
+    forced_suite(ctx, vh, hold=True)
     live_suite(ctx, vh, "fault", ["-mode", "fault", "-n", 2 if ctx.quick else 8, "-par", 40, "-seed", ctx.seed + 1], min_upgrades=0)
